@@ -10,7 +10,8 @@ Conventions implemented (all documented in the library):
     `samples` averages per-example rates over the examples;
   * binary input under micro/macro is a 2-class problem (positive, rest);
   * vocabulary: the given one, else the labels that occur in y_true or y_pred;
-  * top-k: the prediction set of an example is set(y_pred[:k]).
+  * top-k: the prediction set of an example is set(y_pred[:k]); one value per
+    requested k, positionally aligned with k_list (any order, duplicates kept).
 """
 
 from __future__ import annotations
@@ -247,15 +248,19 @@ def oracle(config, y_true, y_pred):
   """
   it, av = config['input_type'], config['average']
   k_list = config.get('k_list')
-  ks = sorted(set(k_list)) if k_list else [None]
-  per_k = []
+  # One value per REQUESTED k, in the order of the request (duplicates kept):
+  # the result is positional, so result[i] must belong to k_list[i].
+  ks = list(k_list) if k_list else [None]
+  per_k, cache = [], {}
   for k in ks:
-    classes, ts, ps = encode(it, y_true, y_pred, pos_label=config.get('pos_label', 1),
-                             vocab=config.get('vocab'), average=av, k=k)
-    cells = cell_counts(classes, ts, ps)
-    cnt = counts(av, classes, cells)
-    vals, conv = metric_values(av, cnt)
-    per_k.append((cnt, vals, conv, len(classes)))
+    if k not in cache:
+      classes, ts, ps = encode(it, y_true, y_pred, pos_label=config.get('pos_label', 1),
+                               vocab=config.get('vocab'), average=av, k=k)
+      cells = cell_counts(classes, ts, ps)
+      cnt = counts(av, classes, cells)
+      vals, conv = metric_values(av, cnt)
+      cache[k] = (cnt, vals, conv, len(classes))
+    per_k.append(cache[k])
   if k_list:
     values = {n: [p[1][n] for p in per_k] for n in DERIVED}
     conv = {n: any(p[2].get(n) for p in per_k)
